@@ -311,6 +311,27 @@ class C06(PropBase):
             for text in self.positions(e):
                 for (w, regs, mb, mh) in self.ENVS:
                     addA(w, 5, 0, 16, regs, mb, mh, text)
+        # the same register under both spellings (`$r3` / `r3` are one rule key), `$` spelling first and later,
+        # within one record and across INIT / delta records
+        for e in exprs:
+            for k, (w, regs, mb, mh) in enumerate(self.ENVS[:2]):
+                addA(w, 5, 0, 16, regs, mb, mh, ".cfa: 16 .ra: 8 r3: 5 $r3: %s" % e)
+                addA(w, 5, 0, 16, regs, mb, mh, ".cfa: 16 .ra: 8 $r3: 5 r3: %s" % e)
+                if k == 0:
+                    addA(w, 5, 0, 16, regs, mb, mh, ".cfa: 16 .ra: 8 r3: 5", [(3, "$r3: %s" % e)])
+                    addA(w, 5, 0, 16, regs, mb, mh, ".cfa: 16 .ra: 8 $r3: 5", [(3, "r3: %s" % e), (9, "$r3: 1")])
+                dist["both_spellings"] = dist.get("both_spellings", 0) + 1
+        # every binary operator on a boundary pool of operands (signed / unsigned readings differ on most pairs)
+        bpool = ["0", "1", "2", "3", "8", "-1", "-2", "-8", "9223372036854775807", "-9223372036854775808", "r1", "$r0",
+                 "4294967296", "-4294967296"]
+        for a in bpool:
+            for b in bpool:
+                for op in ["+", "-", "*", "/", "%", "@"]:
+                    e = "%s %s %s" % (a, b, op)
+                    for text in self.positions(e):
+                        (w, regs, mb, mh) = self.ENVS[(len(a) + len(b)) % 2 * 5]
+                        addA(w, 5, 0, 16, regs, mb, mh, text)
+                    dist["binop_grid"] = dist.get("binop_grid", 0) + 1
         if tier == "thorough":
             sub = ["+", "-", "/", "@", "^", ".cfa", ".undef", "8", "-1", "$r0", "r1", "r2:"]
             for c in itertools.product(sub, repeat=4):
@@ -346,7 +367,7 @@ class C06(PropBase):
             dist["random_programs"] += 1
         # delta-record sets
         pool = [".cfa: 24", ".cfa: $r0 8 +", ".ra: 5", ".ra: .cfa ^", "$r3: 7", "$r3: .undef", "r3: 9", "r4: r1 $r0 +",
-                "$r3: 1 r4: 2 .ra: 3", "8", "", "$r3:", "$nope: 1", ".cfa: .cfa", "$r5: 18446744073709551616", "r4: .cfa 8 - ^"]
+                "$r3: 1 r4: 2 .ra: 3", "r3: .undef", "$r3: r1", "r3: 4 $r3: .undef", "$r4: .undef", "$r4: 6", "8", "", "$r3:", "$nope: 1", ".cfa: .cfa", "$r5: 18446744073709551616", "r4: .cfa 8 - ^"]
         addrs = [15, 16, 19, 20, 20, 21, 47, 48]
         nd = 5000 if tier == "quick" else 40000
         for _ in range(nd):
